@@ -230,7 +230,9 @@ def job_format(fmt, year_digits=None, sign="pos"):
     return ex.execute(h)
 
 PANEL_QUICK = ["%Y-%m-%d %H:%M:%S", "%E4Y-%m-%dT%H:%M", "%E*S", "%e|%u|%w|%Z|%%|%ET", "%z %:z %::z %:::z %E*z", "%E3S", "%E0S", "%E15f", "%E18S", "%E*f",
-               "%", "%E", "%%%", "%E*", "%:", "ab%Qcd%E5Y%::"]
+               "%", "%E", "%%%", "%E*", "%:", "ab%Qcd%E5Y%::",
+               # every specifier format() renders itself, each directly after one it delegates to strftime (the pending text is flushed first)
+               "%a%Y%b%m%c%d%a%e", "%a%H%b%M%c%S", "%a%z%b%:z", "%c%::z%a%:::z", "%a%Ez%b%E*z", "%a%ET%b%%%c", "%a%E4Y%b", "%b%E*S", "%a%E3S%c", "%a%E*f%b%E5f%a%Z%b"]
 def format_jobs(tier):
     js = [("driver-format:%r" % p, job_format, {"fmt": p, "year_digits": 6}) for p in PANEL_QUICK]
     js += [("driver-format:%r,negative" % p, job_format, {"fmt": p, "year_digits": 6, "sign": "neg"}) for p in ("%Y-%m-%d", "%E4Y")]
@@ -246,6 +248,7 @@ def replay_parse_model(job, m):
     data = bytearray(); vals = {}
     for p in pieces:
         if p[0] == "lit": data += p[1].encode()
+        elif p[0] == "const": vals[p[1]] = p[2]
         elif p[0] == "num":
             ds = [m.get("%s_%d" % (p[1], i), 48) for i in range(p[2])]
             data += bytes(ds); vals[p[1]] = int(bytes(ds))
@@ -260,7 +263,7 @@ def replay_parse_model(job, m):
         want = (v, 0) if ok else None
     else:
         g = lambda k, dflt=0: vals.get(k, dflt)
-        Y, mo, dd, H, M, S = g("Y", 1970), g("m", 1), g("d", 1), g("H"), g("M"), g("S")
+        Y, mo, dd, H, M, S = g("Y", 1970), g("m", 1), g("d", 1) + g("dbase", 0), g("H"), g("M"), g("S")
         ok = 1 <= mo <= 12 and 1 <= dd <= 31 and H <= 23 and M <= 59 and S <= 60 and dd <= cal.dim(Y, mo if 1 <= mo <= 12 else 1)
         offp = None
         if "zh" in vals:
@@ -271,7 +274,7 @@ def replay_parse_model(job, m):
         if ok:
             inst = cal.sec(Y, mo, dd, H, M, 59 if S == 60 else S) + (1 if S == 60 else 0) - (offp if offp is not None else zoff)
             fsv = 0 if S == 60 else vals.get("f", 0) * 10 ** 12
-            want = (inst, fsv)
+            want = (inst, fsv) if I64MIN <= inst <= I64MAX else None
     if got != want: return "parse(%r, %r) in fixed zone %+d s = %s, expected %s" % (fmt, bytes(data), zoff, got, want)
     return None
 
@@ -280,7 +283,6 @@ def replay_model(job, m, desc=""):
     fmt = eval(job.split(":", 1)[1].split("(all")[0].split(",negative")[0])
     if isinstance(fmt, bytes): fmt = fmt.decode("latin1")
     toks = tokenize(fmt.encode("latin1"))
-    if any(k == "text" and b"%" in a for k, a in toks): return None       # strftime-delegated text cannot be compared natively
     # replay in a fixed-offset zone: the civil fields are those of the instant, so choose t from the model's fields
     from spec import cal
     y, mo, d = m.get("y", 1970), m.get("m", 1), m.get("d", 1)
@@ -296,7 +298,11 @@ def replay_model(job, m, desc=""):
     f = {"y": y, "m": mo, "d": d, "hh": m.get("hh", 0), "mm": m.get("mm", 0), "ss": m.get("ss", 0), "off": off, "fs": fs, "t": t,
          "abbr": R.ref_offset_text(off, ":*:").encode() if off else b"UTC", "wday": (cal.weekday(y, mo, d) + 1) % 7}
     exp = bytearray()
-    for alts in expected_pieces(toks, f):
+    for (kind, arg), alts in zip(toks, expected_pieces(toks, f)):
+        if kind == "text" and b"%" in arg:
+            # text that format() hands to strftime: the platform's own strftime on the same broken-down time
+            exp += R.libc_strftime(arg, y, mo, d, f["hh"], f["mm"], f["ss"], f["wday"], cal.yearday(y, mo, d) - 1)
+            continue
         for c, bs in alts:
             if c is True or c:
                 exp += bytes(int(b) for b in bs); break
@@ -320,6 +326,15 @@ PARSE_SHAPES = {
     "s-short": ("%s", [("num", "s", 10)]),
     "ES": ("%H:%M:%E*S", [("num", "H", 2), ("lit", ":"), ("num", "M", 2), ("lit", ":"), ("num", "S", 2), ("lit", "."), ("num", "f", 3)]),
     "trailing": ("%H:%M", [("num", "H", 2), ("lit", ":"), ("num", "M", 2), ("any", "x")]),
+    # the ends of the range: the last / first few days of time_point<seconds>, read with an explicit offset or in the caller's zone
+    "max-z": ("%Y-%m-%d %H:%M:%S %z", [("const", "Y", 292277026596), ("const", "m", 12), ("lit", "292277026596-12-0"), ("num", "d", 1), ("lit", " "), ("num", "H", 2), ("lit", ":"), ("num", "M", 2),
+                                        ("lit", ":"), ("num", "S", 2), ("lit", " "), ("osign", "z"), ("num", "zh", 2), ("num", "zm", 2)]),
+    "max-local": ("%Y-%m-%d %H:%M:%S", [("const", "Y", 292277026596), ("const", "m", 12), ("lit", "292277026596-12-0"), ("num", "d", 1), ("lit", " "), ("num", "H", 2), ("lit", ":"), ("num", "M", 2),
+                                         ("lit", ":"), ("num", "S", 2)]),
+    "min-z": ("%Y-%m-%d %H:%M:%S %z", [("const", "Y", -292277022657), ("const", "m", 1), ("const", "dbase", 20), ("lit", "-292277022657-01-2"), ("num", "d", 1), ("lit", " "), ("num", "H", 2), ("lit", ":"), ("num", "M", 2),
+                                        ("lit", ":"), ("num", "S", 2), ("lit", " "), ("osign", "z"), ("num", "zh", 2), ("num", "zm", 2)]),
+    "min-local": ("%Y-%m-%d %H:%M:%S", [("const", "Y", -292277022657), ("const", "m", 1), ("const", "dbase", 20), ("lit", "-292277022657-01-2"), ("num", "d", 1), ("lit", " "), ("num", "H", 2), ("lit", ":"), ("num", "M", 2),
+                                         ("lit", ":"), ("num", "S", 2)]),
 }
 
 def job_parse(shape):
@@ -333,6 +348,7 @@ def job_parse(shape):
         vals = {}; data = []
         for p in pieces:
             if p[0] == "lit": data += list(p[1].encode())
+            elif p[0] == "const": vals[p[1]] = p[2]
             elif p[0] == "num":
                 bs, v = digits(ex, st, p[1], p[2]); data += bs; vals[p[1]] = v
             elif p[0] == "osign":
@@ -378,8 +394,15 @@ def job_parse(shape):
             off = 0 if impl.obj == utc_impl.obj else zoff
             t = ex.load(st2, Ptr(tpp.obj, tpp.off), I64)
             if smt.is_sym(t): raise symex.Unsupported("lookup(tp) with a symbolic instant in the parse driver")
-            f = cal.from_sec(t + (off if not smt.is_sym(off) else 0))
-            if smt.is_sym(off): raise symex.Unsupported("saturation guard with a symbolic zone offset")
+            f = list(cal.from_sec(t))
+            if smt.is_sym(off):
+                # civil fields of t + off for |off| < one day, by day arithmetic inside the month (t is min() or max(): day 27 / day 4)
+                if not (2 <= f[2] <= 27): raise symex.Unsupported("saturation guard: the day of t is too close to a month boundary for the +-1 day model")
+                x = add(f[3] * 3600 + f[4] * 60 + f[5], off)
+                sod = fmod(x, 86400)
+                f[2] = add(f[2], fdiv(x, 86400)); f[3] = fdiv(sod, 3600); f[4] = fdiv(fmod(sod, 3600), 60); f[5] = fmod(sod, 60)
+            else:
+                f = list(cal.from_sec(t + off))
             ex.store_raw(st2, Ptr(ret.obj, ret.off), 8, f[0])
             for i in range(5): ex.store_raw(st2, Ptr(ret.obj, ret.off + 8 + i), 1, f[1 + i])
             ex.store_raw(st2, Ptr(ret.obj, ret.off + 16), 4, off); ex.store_raw(st2, Ptr(ret.obj, ret.off + 20), 1, 0)
@@ -402,7 +425,7 @@ def job_parse(shape):
                 ex.prove(st2, smt.iff(ok, fits), "parse(%%s): accepted iff the decimal value fits int64 (%s)" % shape)
                 ex.prove(st2, implies(ok, eq(ex.load(st2, sec, I64), v)), "parse(%s): the instant is exactly the number")
                 return
-            Y = g("Y", 1970); mo = g("m", 1); d = g("d", 1); H = g("H"); M = g("M"); S = g("S")
+            Y = g("Y", 1970); mo = g("m", 1); d = add(g("d", 1), g("dbase", 0)); H = g("H"); M = g("M"); S = g("S")
             rng = and_(le(1, mo), le(mo, 12), le(1, d), le(d, 31), le(H, 23), le(M, 59), le(S, 60))
             exists = le(d, cal.dim(Y, mo))
             leap = eq(S, 60)
@@ -412,7 +435,8 @@ def job_parse(shape):
                 offp = mul(add(mul(vals["zh"], 3600), mul(vals["zm"], 60)), ite(eq(vals["osign"], 45), -1, 1))
             inst = add(cal.sec(Y, mo, d, H, M, ite(leap, 59, S)), b2i(leap))
             inst = sub(inst, offp if "zh" in vals else zoff)
-            want_ok = and_(rng, exists)
+            # ... and the denoted instant is representable (C09: "accepts only ... in-range input")
+            want_ok = and_(rng, exists, le(I64MIN, inst), le(inst, I64MAX))
             if shape == "trailing":
                 sp = or_(eq(vals["any"], 32), and_(le(9, vals["any"]), le(vals["any"], 13)))
                 want_ok = and_(want_ok, sp)
